@@ -448,6 +448,46 @@ func transferSizes(w, r *gmtls.Conn, total int, seed int, sizes []int) (int, err
 	return len(got), nil
 }
 
+func tailThenClose(w, r *gmtls.Conn, n int) error {
+	msg := make([]byte, n)
+	for i := range msg {
+		msg[i] = byte((i*89 + 7) % 253)
+	}
+	errc := make(chan error, 1)
+	go func() {
+		_, e := w.Write(msg)
+		if e == nil {
+			e = w.Close()
+		}
+		errc <- e
+	}()
+	if e := <-errc; e != nil {
+		return fmt.Errorf("write / close: %v", e)
+	}
+	time.Sleep(10 * time.Millisecond) // (data and close_notify have both arrived before the first Read)
+	var got []byte
+	r.SetReadDeadline(time.Now().Add(10 * time.Second))
+	defer r.SetReadDeadline(time.Time{})
+	for {
+		buf := make([]byte, 64)
+		k, e := r.Read(buf)
+		got = append(got, buf[:k]...)
+		if e == io.EOF {
+			break
+		}
+		if e != nil {
+			return fmt.Errorf("read after %d of %d bytes: %v", len(got), n, e)
+		}
+		if len(got) > n {
+			break
+		}
+	}
+	if !bytes.Equal(got, msg) {
+		return fmt.Errorf("%d of the %d bytes written before Close were delivered before the end of the stream", len(got), n)
+	}
+	return nil
+}
+
 func runC06(c *c06Case) (c06Obs, error) {
 	var obs c06Obs
 	cc, sc, err := c06Configs(c)
@@ -485,8 +525,34 @@ func runC06(c *c06Case) (c06Obs, error) {
 		if e1 == nil {
 			n2, e2 = transfer(srv, cli, 40000, 2)
 		}
+		// the end of the stream: the server writes a last message and closes at once, so that close_notify sits right behind the
+		// data; the client, reading with a small buffer, must get every byte and then the end of the stream
+		// (on a second connection of the same two configurations over loopback TCP: there both records wait in the kernel's
+		// buffer, which the in-memory pipes of the interposer cannot do)
+		var e3 error
+		if e1 == nil && e2 == nil {
+			if ce2, se2 := tcpPair(); ce2 == nil {
+				return obs, fmt.Errorf("no loopback connection")
+			} else {
+				cc2, sc2, err := c06Configs(c)
+				if err != nil {
+					return obs, err
+				}
+				cli2, srv2 := gmtls.Client(ce2, cc2), gmtls.Server(se2, sc2)
+				if r2 := runHandshake(cli2, srv2, 15*time.Second); r2.cliErr != nil || r2.srvErr != nil || r2.timedOut {
+					e3 = fmt.Errorf("second connection of the same configuration: client %v, server %v", r2.cliErr, r2.srvErr)
+				} else {
+					e3 = tailThenClose(srv2, cli2, 700+len(sizes))
+				}
+				cli2.Close()
+				srv2.Close()
+			}
+		}
 		obs.DataBytes = n1 + n2
-		obs.DataOK = e1 == nil && e2 == nil
+		obs.DataOK = e1 == nil && e2 == nil && e3 == nil
+		if e3 != nil {
+			obs.DataErr = "s2c, last message before Close: " + e3.Error()
+		}
 		if e1 != nil {
 			obs.DataErr = "c2s: " + e1.Error()
 		} else if e2 != nil {
